@@ -427,8 +427,16 @@ func (s *Sched) finish(t *Task) {
 func (t *Task) Exited() bool { return t.exited }
 
 func (s *Sched) park(t *Task, site string) {
-	if s.aborting.Load() {
+	if s.parkSoft(t, site) {
 		runtime.Goexit()
+	}
+}
+
+// parkSoft parks the calling task until it is scheduled; it returns true if
+// the run is being torn down instead (the caller must unwind on its own).
+func (s *Sched) parkSoft(t *Task, site string) bool {
+	if s.aborting.Load() {
+		return true
 	}
 	t.site = site
 	s.mu.Lock()
@@ -442,9 +450,58 @@ func (s *Sched) park(t *Task, site string) {
 	case <-t.wake:
 	case <-s.abortCh:
 	}
-	if s.aborting.Load() {
-		runtime.Goexit()
+	return s.aborting.Load()
+}
+
+// The *Soft variants are for the simulated network: during tear-down they
+// return true instead of ending the goroutine, so that the operation can
+// return an error and un-instrumented callers (net/http, which waits for its
+// background reader under a sync.Cond) unwind the ordinary way.
+
+// AdoptSoft is AdoptIn; true means the run is being torn down.
+func AdoptSoft(hint, group string) bool {
+	s := cur.Load()
+	if s == nil {
+		return false
 	}
+	if s.current() == nil {
+		t := s.adoptIn(hint, group)
+		return s.parkSoft(t, "adopted")
+	}
+	return s.aborting.Load()
+}
+
+// YieldSoft is Yield; true means the run is being torn down.
+func YieldSoft(site string) bool {
+	s := cur.Load()
+	if s == nil {
+		return false
+	}
+	t := s.current()
+	if t == nil {
+		return false
+	}
+	if len(s.cfg.OnlySites) > 0 && !s.siteSelected(site) {
+		return s.aborting.Load()
+	}
+	if t.budget > 0 {
+		t.budget--
+		return s.aborting.Load()
+	}
+	return s.parkSoft(t, site)
+}
+
+// YieldMustSoft is YieldMust; true means the run is being torn down.
+func YieldMustSoft(site string) bool {
+	s := cur.Load()
+	if s == nil {
+		return false
+	}
+	t := s.current()
+	if t == nil {
+		t = s.adopt("anon:" + site)
+	}
+	return s.parkSoft(t, site)
 }
 
 // Yield is an optional schedule point (before an operation).
